@@ -30,10 +30,22 @@ Proof.
   - reflexivity.
 Qed.
 
-Lemma handle_rpc_first_raise : forall p u r,
-  first_raise u = Some r -> not_redirect r -> handle_rpc p u = handle_error p None (reported r).
+Lemma wsgi_catch_serialise : forall p r,
+  wsgi_catch p wsgi_serialise_handlers None r = handle_error p None (reported r).
+Proof. intros p [f | e]; reflexivity. Qed.
+
+Lemma wsgi_catch_first_item : forall p r,
+  wsgi_catch p wsgi_first_item_handlers None r = handle_error p None (reported r).
+Proof. intros p [f | e]; reflexivity. Qed.
+
+(** The response is [handle_error] applied to the first thing user code raised, in every
+    configuration but the streamed one. *)
+Lemma handle_rpc_first_raise : forall p ch u r,
+  first_raise u = Some r -> not_redirect r -> streamed p ch u = false ->
+  handle_rpc p ch u = handle_error p None (reported r).
 Proof.
-  intros p [c b r'] r H Hn. unfold first_raise in H. simpl in H.
+  intros p ch [c b r'] r H Hn Hst. unfold first_raise in H. simpl in H.
+  unfold streamed, late_raise in Hst. cbn [u_call u_body u_ret] in Hst.
   unfold handle_rpc, process_request, funnel_steps. cbn [run_steps u_call u_body u_ret].
   destruct c as [rc |].
   - inversion H; subst. rewrite (catch_first_raise _ Hn). reflexivity.
@@ -41,8 +53,37 @@ Proof.
     + inversion H; subst. rewrite (catch_first_raise _ Hn). reflexivity.
     + destruct r' as [rr |].
       * inversion H; subst. rewrite (catch_first_raise _ Hn). reflexivity.
-      * destruct v as [v | v [l |] | r0]; try discriminate.
-        inversion H; subst. cbn. destruct r as [f | e]; reflexivity.
+      * destruct v as [v | v [l |] | r0]; try discriminate; inversion H; subst;
+          cbn [bind c_err c_obj].
+        -- unfold serialize. cbn [c_err c_obj].
+           unfold wsgi_ok_default_after_serialise, wsgi_join_in_try.
+           destruct (lazy_out p) eqn:El.
+           ++ rewrite !andb_true_r in Hst. rewrite Hst. apply wsgi_catch_serialise.
+           ++ apply wsgi_catch_serialise.
+        -- apply wsgi_catch_first_item.
+Qed.
+
+Lemma no_return_on_fault : forall p ch u u' r,
+  first_raise u = Some r -> first_raise u' = Some r -> not_redirect r ->
+  streamed p ch u = false -> streamed p ch u' = false ->
+  handle_rpc p ch u = handle_rpc p ch u'.
+Proof.
+  intros. rewrite (handle_rpc_first_raise p ch u r), (handle_rpc_first_raise p ch u' r); auto.
+Qed.
+
+(** ... and in the streamed one the status line and the first chunk of the return value are on
+    the wire before the exception is found out: nothing of it is reported. *)
+Lemma streamed_response : forall p u, streamed p true u = true ->
+  exists v r, u_body u = inr (RGen v (Some r)) /\ first_raise u = Some r /\
+              handle_rpc p true u = Ok (200, WPartial v).
+Proof.
+  intros p [c b r'] H. unfold streamed, late_raise in H. cbn [u_call u_body u_ret andb] in H.
+  destruct (lazy_out p) eqn:El; [| discriminate]. cbn [andb] in H.
+  destruct c; try discriminate. destruct b as [| [v | v [r |] | r0]]; try discriminate.
+  destruct r'; try discriminate.
+  exists v, r. split; [reflexivity |]. split; [reflexivity |].
+  unfold handle_rpc, process_request, funnel_steps. cbn [run_steps u_call u_body u_ret bind c_err c_obj].
+  unfold serialize. cbn [c_err c_obj]. rewrite El. reflexivity.
 Qed.
 
 (* ------------------------------------------------------------------ HTTP status *)
@@ -64,7 +105,7 @@ Qed.
 Lemma handle_error_status : forall p f st w,
   handle_error p None f = Ok (st, w) -> st = documented_status p f /\ enc_fault p f = Ok w.
 Proof.
-  intros p f st w. unfold handle_error. rewrite http_code_documented.
+  intros p f st w. unfold handle_error, wsgi_error_status. rewrite http_code_documented.
   destruct (enc_fault p f); intros H; inversion H; auto.
 Qed.
 
@@ -422,4 +463,139 @@ Lemma fault_intact_httprpc : forall f, existsb (Z.eqb 10) (f_code f) = false ->
 Proof.
   intros f H. eexists. split; [reflexivity |]. cbn [dec_fault]. unfold fault_to_text.
   rewrite (split_blank_ok _ _ H). reflexivity.
+Qed.
+
+(** the exact condition under which text/plain keeps code and message apart: the code followed by
+    the separator's first line feed contains no blank line before the separator *)
+Lemma split_blank_cons2 : forall c c2 r2,
+  split_blank (c :: c2 :: r2) =
+  if (c =? 10) && (c2 =? 10) then Some ([], r2)
+  else match split_blank (c2 :: r2) with Some (a, b) => Some (c :: a, b) | None => None end.
+Proof. reflexivity. Qed.
+
+Lemma has_blank_cons2 : forall c c2 r,
+  has_blank (c :: c2 :: r) = ((c =? 10) && (c2 =? 10)) || has_blank (c2 :: r).
+Proof. reflexivity. Qed.
+
+Lemma split_blank_exact : forall c m, has_blank (c ++ [10]) = false -> split_blank (c ++ 10 :: 10 :: m) = Some (c, m).
+Proof.
+  induction c as [| x c IH]; intros m H.
+  - reflexivity.
+  - destruct c as [| y c'].
+    + cbn [app] in *. rewrite has_blank_cons2 in H. apply orb_false_iff in H. destruct H as [H1 _].
+      rewrite split_blank_cons2. rewrite andb_true_r in H1. rewrite H1. cbn [andb].
+      rewrite split_blank_cons2. reflexivity.
+    + change ((x :: y :: c') ++ [10]) with (x :: y :: (c' ++ [10])) in H.
+      rewrite has_blank_cons2 in H. apply orb_false_iff in H. destruct H as [H1 H2].
+      change ((x :: y :: c') ++ 10 :: 10 :: m) with (x :: y :: (c' ++ 10 :: 10 :: m)).
+      rewrite split_blank_cons2, H1.
+      change (y :: c' ++ 10 :: 10 :: m) with ((y :: c') ++ 10 :: 10 :: m).
+      rewrite (IH m H2). reflexivity.
+Qed.
+
+Lemma fault_intact_httprpc_exact : forall f, has_blank (f_code f ++ [10]) = false ->
+  exists w, enc_fault PHttpRpc f = Ok w /\
+            dec_fault PHttpRpc w = Some {| o_code := f_code f; o_string := f_string f; o_detail := None |}.
+Proof.
+  intros f H. eexists. split; [reflexivity |]. cbn [dec_fault]. unfold fault_to_text.
+  rewrite (split_blank_exact _ _ H). reflexivity.
+Qed.
+
+(* ------------------------------------------------------------------ property-level statements *)
+Lemma no_leak : forall p ch u1 u2 e1 e2,
+  first_raise u1 = Some (RExn e1) -> first_raise u2 = Some (RExn e2) ->
+  streamed p ch u1 = false -> streamed p ch u2 = false ->
+  handle_rpc p ch u1 = handle_rpc p ch u2 /\
+  exists w, handle_rpc p ch u1 = Ok (500, w) /\ enc_fault p internal_error = Ok w /\
+            dec_fault p w = Some {| o_code := t "Server"; o_string := t "Internal Error"; o_detail := None |}.
+Proof.
+  intros p ch u1 u2 e1 e2 H1 H2 S1 S2.
+  rewrite (handle_rpc_first_raise p ch u1 _ H1 I S1), (handle_rpc_first_raise p ch u2 _ H2 I S2).
+  split; [reflexivity |]. destruct p; eexists; repeat split.
+Qed.
+
+Lemma fault_reported : forall p ch u f st w,
+  first_raise u = Some (RFault f) -> isinstance f E_Redirect = false -> streamed p ch u = false ->
+  handle_rpc p ch u = Ok (st, w) -> st = documented_status p f /\ enc_fault p f = Ok w.
+Proof.
+  intros p ch u f st w H Hr Hs Hw. rewrite (handle_rpc_first_raise p ch u _ H Hr Hs) in Hw.
+  apply handle_error_status. exact Hw.
+Qed.
+
+Definition wit_fault (d : option (list (text * dval))) (s : text) : fault :=
+  {| f_root := E_Fault; f_code := t "Client.Foo"; f_string := s; f_actor := []; f_detail := d; f_lang := t "en" |}.
+Definition wit_body (f : fault) : ucode := {| u_call := None; u_body := inl (RFault f); u_ret := None |}.
+Definition wit_stream (v : text) (r : raise) : ucode :=
+  {| u_call := None; u_body := inr (RGen v (Some r)); u_ret := None |}.
+
+Lemma streaming_refuted : exists u f v,
+  first_raise u = Some (RFault f) /\ isinstance f E_Redirect = false /\
+  handle_rpc PHttpRpc true u = Ok (200, WPartial v) /\
+  handle_rpc PHttpRpc true u <> handle_error PHttpRpc None f /\
+  handle_rpc PHttpRpc false u = handle_error PHttpRpc None f.
+Proof.
+  exists (wit_stream (t "chunk") (RFault (wit_fault None (t "m")))), (wit_fault None (t "m")), (t "chunk").
+  repeat split. vm_compute. discriminate.
+Qed.
+
+Lemma httprpc_detail_refuted : exists f w,
+  enc_fault PHttpRpc f = Ok w /\ f_detail f <> None /\
+  forall o, dec_fault PHttpRpc w = Some o -> o_detail o = None.
+Proof.
+  exists (wit_fault (Some [(t "a", DStr (t "x"))]) (t "m")). eexists. split; [reflexivity |].
+  split; [discriminate |]. intros o H. vm_compute in H. inversion H. reflexivity.
+Qed.
+
+Lemma xml_unrepresentable_refuted : exists f,
+  xml_fault_ok f = false /\
+  forall p ch, is_xml_prot p = true -> handle_rpc p ch (wit_body f) = Crash ValueError.
+Proof.
+  exists (wit_fault None [110; 0]). split; [reflexivity |]. intros p ch Hp.
+  destruct p; try discriminate; reflexivity.
+Qed.
+
+Lemma loopback_soap11_nonempty : forall f, xml_fault_ok f = true -> f_string f <> [] ->
+  exists w, enc_fault PSoap11 f = Ok w /\
+            client_in_error PSoap11 w =
+            Some {| o_code := pre11 ++ colon :: f_code f; o_string := f_string f;
+                    o_detail := xnorm_detail (f_detail f) |}.
+Proof.
+  intros f H Hs. destruct (loopback_soap11 f H) as [w [E C]]. exists w. split; [exact E |].
+  rewrite C. unfold client_obs11, ctor_string. destruct (f_string f); [congruence | reflexivity].
+Qed.
+
+Lemma loopback_msgpackrpc_nonempty : forall f, f_string f <> [] ->
+  exists w, enc_fault PMsgpackRpc f = Ok w /\ client_in_error PMsgpackRpc w = Some (expected_obs PMsgpackRpc f).
+Proof.
+  intros f Hs. destruct (loopback_msgpackrpc f) as [w [E C]]. exists w. split; [exact E |].
+  rewrite C. unfold expected_obs, ctor_string. cbn [is_xml_prot]. destruct (f_string f); [congruence | reflexivity].
+Qed.
+
+Lemma loopback_soap12_unpadded : forall f,
+  xml_fault_ok f = true -> soap12_code_ok (f_code f) = true ->
+  strip (f_string f) = f_string f -> f_string f <> [] ->
+  exists w, enc_fault PSoap12 f = Ok w /\
+            client_in_error PSoap12 w =
+            Some {| o_code := client_code12 f; o_string := f_string f; o_detail := xnorm_detail (f_detail f) |}.
+Proof.
+  intros f H Hc Hst Hs. destruct (loopback_soap12 f H Hc) as [w [E C]]. exists w. split; [exact E |].
+  rewrite C. unfold client_obs12, ctor_string. rewrite Hst. destruct (f_string f); [congruence | reflexivity].
+Qed.
+
+(** what the SOAP 1.2 client reports for a padded message: the stripped one, for every fault *)
+Lemma loopback_soap12_stripped : forall f,
+  xml_fault_ok f = true -> soap12_code_ok (f_code f) = true -> strip (f_string f) <> [] ->
+  exists w o, enc_fault PSoap12 f = Ok w /\ client_in_error PSoap12 w = Some o /\
+              o_string o = strip (f_string f).
+Proof.
+  intros f H Hc Hs. destruct (loopback_soap12 f H Hc) as [w [E C]]. exists w. eexists.
+  split; [exact E |]. split; [exact C |]. unfold client_obs12, ctor_string. cbn [o_string].
+  destruct (strip (f_string f)); [congruence | reflexivity].
+Qed.
+
+Lemma loopback_soap12_strip_refuted : exists f w o,
+  enc_fault PSoap12 f = Ok w /\ client_in_error PSoap12 w = Some o /\ o_string o <> f_string f.
+Proof.
+  exists (wit_fault None [32; 120; 32]). eexists. eexists. split; [reflexivity |].
+  split; [vm_compute; reflexivity |]. vm_compute. discriminate.
 Qed.
